@@ -10,3 +10,14 @@ int ilogb(double d) {
 
 /* VF_TRUSTED(__builtin_isfinite: goto-cc 6.11 has no model for this GCC builtin; defined as !isnan && !isinf over CBMC's IEEE-754 model) */
 int __builtin_isfinite(double d) { return !__CPROVER_isnand(d) && !__CPROVER_isinfd(d); }
+
+/* VF_TRUSTED(ldexp: cbmc 6.11 has no model; m * 2^k computed as one or two exact-power-of-two multiplications in CBMC's IEEE-754 model (correctly rounded like glibc for the exponents asn_REAL2double produces from asn_double2REAL output)) */
+static double vf_pow2(int k) {  /* -1074 <= k <= 1023 */
+	unsigned long long bits = k >= -1022 ? ((unsigned long long)(k + 1023) << 52) : (1ull << (k + 1074));
+	double d; memcpy(&d, &bits, sizeof(d)); return d;
+}
+double ldexp(double m, int k) {
+	if(k > 1023) { m *= vf_pow2(1023); k -= 1023; if(k > 1023) { m *= vf_pow2(1023); k -= 1023; if(k > 1023) k = 1023; } return m * vf_pow2(k); }
+	if(k < -1074) { m *= vf_pow2(-1000); k += 1000; if(k < -1074) { m *= vf_pow2(-1000); k += 1000; if(k < -1074) k = -1074; } return m * vf_pow2(k); }
+	return m * vf_pow2(k);
+}
